@@ -399,9 +399,10 @@ class Expression(object):
 
         """
 
-        # If the attribute value is not None, then simply return it.
-        # Otherwise, compute it and return it.
-        if self._value is None:
+        # If self is a leaf whose attribute value is not None, then simply return it.
+        # Otherwise, compute it and return it. Linear combinations are recomputed at each call
+        # so that their value always corresponds to the latest solution.
+        if self._value is None or not self._is_leaf:
             # If leaf function value, the PEP would have filled the attribute after solving the problem.
             if self._is_leaf:
                 raise ValueError("The PEP must be solved to evaluate Expressions!")
